@@ -6,6 +6,7 @@ import (
 	"os"
 	"os/exec"
 	"path/filepath"
+	"regexp"
 	"strings"
 	"sync"
 	"time"
@@ -29,6 +30,85 @@ func (o *Obligation) smt(withModel bool) string {
 			b.WriteString("(get-value (" + strings.Join(ts, " ") + "))\n")
 		}
 	}
+	return b.String()
+}
+
+var symRe = regexp.MustCompile(`[A-Za-z_$][A-Za-z0-9_$.!#@]*`)
+
+var smtNoise = map[string]bool{"assert": true, "and": true, "or": true, "not": true, "ite": true, "select": true, "store": true, "forall": true, "exists": true,
+	"let": true, "Int": true, "Bool": true, "Array": true, "distinct": true, "true": true, "false": true, "mod": true, "div": true, "abs": true, "as": true, "const": true,
+	"pattern": true, "idx": true, "Str": true, "BitVec": true, "_": true}
+
+func lineSyms(l string) []string {
+	var out []string
+	for _, m := range symRe.FindAllString(l, -1) {
+		if smtNoise[m] || strings.HasSuffix(m, "$q") {
+			continue
+		}
+		out = append(out, m)
+	}
+	return out
+}
+
+// smtSliced: the obligation with only the assumptions connected to the goal through shared symbols, followed for a
+// bounded number of rounds.  Dropping assumptions can only make a proof harder, never unsound: an `unsat` answer on the
+// sliced problem is an `unsat` answer on the full one (a `sat` answer means nothing and is ignored).
+func (o *Obligation) smtSliced(rounds int) string {
+	fx := o.fx
+	goal := fx.stripMacroPatterns(o.Goal.S)
+	rel := map[string]bool{}
+	for _, sy := range lineSyms(goal) {
+		rel[sy] = true
+	}
+	as := fx.assumps[:o.Prefix]
+	syms := make([][]string, len(as))
+	for i, a := range as {
+		syms[i] = lineSyms(a)
+	}
+	keep := make([]bool, len(as))
+	for r := 0; r < rounds; r++ {
+		var add []string
+		changed := false
+		for i := range as {
+			if keep[i] {
+				continue
+			}
+			hit := false
+			for _, sy := range syms[i] {
+				if rel[sy] {
+					hit = true
+					break
+				}
+			}
+			if len(syms[i]) == 0 {
+				hit = true
+			}
+			if hit {
+				keep[i] = true
+				changed = true
+				add = append(add, syms[i]...)
+			}
+		}
+		for _, sy := range add {
+			rel[sy] = true
+		}
+		if !changed {
+			break
+		}
+	}
+	var b strings.Builder
+	b.WriteString("(set-logic ALL)\n")
+	for _, d := range fx.decls {
+		b.WriteString(d)
+		b.WriteString("\n")
+	}
+	for i, a := range as {
+		if keep[i] {
+			b.WriteString(fx.stripMacroPatterns(a))
+			b.WriteString("\n")
+		}
+	}
+	b.WriteString("(assert (not " + goal + "))\n(check-sat)\n")
 	return b.String()
 }
 
@@ -124,6 +204,19 @@ func discharge(o *Obligation, dir string, quickS, fullS int, agree bool) {
 		if !(agree && r.verdict == "unsat" && o.Expect == "") {
 			o.Verdict, o.Solver, o.Model = r.verdict, r.solver, r.out
 			return
+		}
+	}
+	// stage 1b: big contexts (hundreds of frame axioms) drown small goals; try the goal with only the assumptions
+	// connected to it (2, then 4 rounds of symbol sharing).  Only `unsat` is taken from a sliced problem.
+	if o.Expect == "" && len(txt) > 200000 {
+		for _, rounds := range []int{2, 4} {
+			sf := strings.TrimSuffix(file, ".smt2") + fmt.Sprintf(".slice%d.smt2", rounds)
+			os.WriteFile(sf, []byte(o.smtSliced(rounds)), 0o644)
+			rs := runSolver(context.Background(), solvers[0], 3, sf)
+			if rs.verdict == "unsat" {
+				o.Verdict, o.Solver = "unsat", rs.solver+fmt.Sprintf("(sliced:%d)", rounds)
+				return
+			}
 		}
 	}
 	// stage 2: everyone in parallel, first definite answer wins
